@@ -46,7 +46,7 @@ type c10K struct {
 }
 
 var c10KPaths = []string{"update1", "updcol1", "upd_map", "updcols_map", "upd_struct", "upd_dto", "updcols_struct", "upd_self", "upd_self",
-	"save", "save", "delete", "delete", "delete_model", "upsert_all", "upsert_slice", "save_slice"}
+	"save", "save", "delete", "delete", "delete_model", "upsert_all", "upsert_slice", "save_slice", "updmap_slicemodel", "delete_slice"}
 
 type c10KTable struct {
 	infos []c10Info
@@ -315,6 +315,65 @@ func c10KJudge(e *c10K, r *Result) (out c10KOut) {
 		}
 		return out
 
+	case "updmap_slicemodel", "delete_slice":
+		// keys given through a slice value, every element with its FULL key: exactly the rows named by an element
+		hit := map[int]bool{}
+		for _, v := range c.Rows {
+			key, _ := t.keyOf(v)
+			if k := t.rowNamed(key); k != 0 && condOK(k) {
+				hit[k] = true
+			}
+		}
+		for k := 1; k <= t.n; k++ {
+			if !hit[k] {
+				if v := unchanged(k, "carries the full key of none of the slice elements (or fails the chain condition)"); v != "" {
+					return bad("%s", v)
+				}
+				continue
+			}
+			b, a := before.Old[k], after.Old[k]
+			if failed {
+				continue
+			}
+			if path == "delete_slice" {
+				if a != nil {
+					return bad("row %d (key %v) is named by a slice element but is still there", k, t.keys[k])
+				}
+				continue
+			}
+			if a == nil {
+				return bad("row %d disappeared", k)
+			}
+			for _, i := range t.cols {
+				in := t.infos[i]
+				was, is := b[in.Col], a[in.Col]
+				if in.DenyU {
+					if was != is {
+						return bad("row %d: column %s of a field denying update (tag %q) changed %q -> %q", k, in.Col, in.F.Tag, was, is)
+					}
+					continue
+				}
+				inSet, accept, skip := c10PredictUpdate(in, c, "upd_map", false, was)
+				if skip || in.PK {
+					continue
+				}
+				if inSet {
+					if !c10Has(accept, is) {
+						return bad("row %d (key %v) is named by a slice element: column %s is in the write set, expected %v, found %q (was %q)", k, t.keys[k], in.Col, accept, is, was)
+					}
+				} else if was != is {
+					return bad("row %d: column %s is outside the write set but changed %q -> %q", k, in.Col, was, is)
+				}
+			}
+		}
+		if out.executed && int(out.affected) != len(hit) {
+			return bad("RowsAffected = %d, but %d row(s) are named by the slice elements", out.affected, len(hit))
+		}
+		if len(after.New) != 0 {
+			return bad("%s inserted %d row(s)", path, len(after.New))
+		}
+		return out
+
 	case "upsert_all", "upsert_slice", "save_slice":
 		hit := map[int]c10Vals{}
 		fresh := 0
@@ -440,7 +499,7 @@ var c10KDryUses int
 
 func c10KDry() *gorm.DB {
 	if c10KDryDB == nil || c10KDryUses%500 == 499 {
-		c10KDryDB = c10OpenDry()
+		c10KDryDB = c10ParseDB()
 	}
 	c10KDryUses++
 	return c10KDryDB
@@ -535,7 +594,27 @@ func genC10K(rng *rand.Rand, r *Result) *c10K {
 		if m == 0 && e.CondKs == nil && rng.Intn(4) > 0 {
 			e.CondKs = []int{1 + rng.Intn(t.n)}
 		}
+		sliceKeys := c.Path == "updmap_slicemodel" || c.Path == "delete_slice"
+		if sliceKeys && m == 0 {
+			c.Path, sliceKeys = "upd_map", false
+		}
 		switch {
+		case sliceKeys:
+			seen := map[string]bool{}
+			for i, n := 0, 1+rng.Intn(3); i < n; i++ {
+				kv := genKey(0)
+				if id := canon(kv); !seen[id] {
+					seen[id] = true
+					c.Rows = append(c.Rows, kv)
+				}
+			}
+			c.Model = c10Vals{}
+			if c.Path == "updmap_slicemodel" {
+				if rng.Intn(4) == 0 {
+					c.Omits = pick(1)
+				}
+				c.Map = c10GenMap(rng, sch, s, false, false, 7, nil, true)
+			}
 		case upsert:
 			n := 1
 			if c.Path != "upsert_all" {
@@ -651,6 +730,8 @@ func c10KLean(e *c10K) ([][]interface{}, []int) {
 		return []interface{}{"c10.rowsel", exp, kind, nz, key, rows}
 	}
 	switch c.Path {
+	case "updmap_slicemodel", "delete_slice":
+		return nil, nil // slice model values are not modelled (e2e oracle only)
 	case "delete":
 		return [][]interface{}{op("delete", c.Rows[0])}, nil
 	case "delete_model":
@@ -680,7 +761,7 @@ func init() {
 	register("C10", func(r *Result, rng *rand.Rand, tier string) {
 		n := 1800
 		if tier == "thorough" {
-			n = 20000
+			n = 60000
 		} else if tier == "search" {
 			n = 4000
 		}
